@@ -328,7 +328,7 @@ def events(run):
     """[tid, arrival] per decision: the yield point the released thread arrived at, or 'end'."""
     ev, tr = [], list(run['trace'])
     k = 0
-    for cur, en, ch in run['decisions']:
+    for ch in run['schedule']:
         if k < len(tr) and tr[k][0] == ch:
             # the k-th arrival belongs to this decision iff the chosen thread produced it
             ev.append([ch, tr[k][1]]); k += 1
@@ -430,15 +430,23 @@ def run(ctx):
     env = {'MY_VAR': '42'}
 
     def explore(sc):
-        budget = (160 if quick else 2500) if sc.modelled else (120 if quick else 1500)
+        budget = (110 if quick else 1200) if sc.modelled else (80 if quick else 800)
         if len(sc.threads) > 2:
             budget = int(budget * 1.25)
         p = {'op': 'explore' if hook_ok else 'seq', 'scenario': impl_scenario(sc), 'bound': bound, 'max_runs': budget,
              'seed': ctx.seed % 100000}
-        return ctx.impl('c20', p, timeout=1500, extra_env=env)
+        res = ctx.impl('c20', p, timeout=1500, extra_env=env)
+        for rn in res.get('runs', []):
+            if rn.get('status') == 'ok':
+                rn['trace'] = [tuple(x) for x in rn['trace']]
+        return res
 
-    with cf.ThreadPoolExecutor(max_workers=6 if quick else 12) as ex:
+    import time as _time
+    _t0 = _time.time()
+    with cf.ThreadPoolExecutor(max_workers=8) as ex:
         results = list(ex.map(explore, scs))
+    ctx.notes.append('phase explore: %.1fs (since start of check %.1fs)' % (_time.time() - _t0, _time.time() - ctx.t0))
+    _t0 = _time.time()
 
     # ---- model predictions for all modelled runs, in one batch ---------------------------------------
     exprs, owners = [], []
@@ -448,17 +456,25 @@ def run(ctx):
         scn = sc.coq(fx)
         for k, rn in enumerate(res.get('runs', [])):
             if rn.get('status') == 'ok':
-                exprs.append('(show_run %s [%s])' % (scn, ';'.join(str(d[2]) for d in rn['decisions'])))
+                exprs.append('(show_run %s [%s])' % (scn, ';'.join(str(x) for x in rn['schedule'])))
                 owners.append((sc, rn))
     preds = {}
     if exprs:
-        try:
-            outs = ctx.coq(exprs, imports=['PyStr', 'ConcModel'], tag='runs')
+        outs, last = None, None
+        for attempt in range(3):   # a coqc killed by the OS on an overloaded machine is retried, not reported
+            try:
+                outs = ctx.coq(exprs, imports=['PyStr', 'ConcModel'], tag='runs%d' % attempt)
+                break
+            except Exception as e:
+                last = e
+                _time.sleep(2 + 5 * attempt)
+        if outs is not None:
             for (sc, rn), o in zip(owners, outs):
                 preds[id(rn)] = o
-        except Exception as e:  # model no longer evaluates: broken tie, predicates below still run
-            ctx.broken_tie('ConcModel.show_run no longer evaluates', str(e)[-1500:])
+        else:  # model no longer evaluates: broken tie, predicates below still run
+            ctx.broken_tie('ConcModel.show_run no longer evaluates', str(last)[-1500:])
 
+    ctx.notes.append('phase model replay: %.1fs for %d schedules' % (_time.time() - _t0, len(exprs)))
     open_regions = {f['id'].split('-')[0]: f['id'] for f in ctx.findings('open')}
     for sc, res in zip(scs, results):
         vecs, per = seq_reference(res.get('sequential', []))
@@ -471,7 +487,7 @@ def run(ctx):
         n_nonseq = 0
         n_viol = 0
         for rn in res.get('runs', []):
-            sched = [d[2] for d in rn.get('decisions', [])]
+            sched = rn.get('schedule', [])
             if rn.get('status') != 'ok':
                 ctx.broken_tie('scheduler run did not complete (%s) in scenario %s' % (rn.get('status'), sc.name),
                                {'prefix': rn.get('prefix'), 'error': rn.get('error')})
@@ -519,7 +535,7 @@ def run(ctx):
             ctx.hist('truncated_scenarios', sc.name)
         if len(ctx.samples) < 6 and res.get('runs'):
             rn = res['runs'][min(3, len(res['runs']) - 1)]
-            ctx.sample({'scenario': sc.name, 'schedule': [d[2] for d in rn.get('decisions', [])],
+            ctx.sample({'scenario': sc.name, 'schedule': rn.get('schedule', []),
                         'trace': rn.get('trace'), 'outcomes': rn.get('outcomes')})
 
     # ---- listed findings: replay each witness schedule ------------------------------------------------
@@ -534,16 +550,19 @@ def run(ctx):
         ctx.count(1, key='witness:' + f['id'], nontrivial=True)
         ctx.known_finding(f['id'], still_fails=not ok)
 
+    ctx.notes.append('phase witnesses done at %.1fs' % (_time.time() - ctx.t0))
     # ---- supplementary: real threads, tiny switch interval -------------------------------------------
     stress = [sc for sc in scs if sc.name in ('plain load||load', 'plain dump||load', 'hook scan cold dump||dump',
                                              'paths dump||load', 'env instantiate||instantiate', 'v1 plain load||load')]
-    iters = 40 if quick else 400
+    iters = 25 if quick else 300
 
     def do_stress(sc):
         return ctx.impl('c20', {'op': 'stress', 'scenario': impl_scenario(sc), 'iters': iters, 'switch': 1e-6},
                         timeout=1500, extra_env=env)
+    _t0 = _time.time()
     with cf.ThreadPoolExecutor(max_workers=6) as ex:
         sres = list(ex.map(do_stress, stress))
+    ctx.notes.append('phase stress: %.1fs' % (_time.time() - _t0))
     for sc, res in zip(stress, sres):
         vecs, per = seq_reference(res['sequential'])
         for rn in res['runs']:
@@ -557,7 +576,7 @@ def run(ctx):
                 for t, outs in enumerate(rn['outcomes']):
                     for j, o in enumerate(outs):
                         if tag(o, per.get((t, j), set())) != 'seq':
-                            fid = region_of(sc, {'trace': [], 'decisions': []}, t, j, o, per)
+                            fid = region_of(sc, {'trace': [], 'schedule': []}, t, j, o, per)
                             if fid and fid in open_regions and fid in sc.regions:
                                 ctx.hist('known_region', open_regions[fid] + ' (stress)')
                             else:
@@ -571,6 +590,9 @@ def replay(ctx, obj, quiet=False):
     """obj: {'scenario': <impl scenario>, 'schedule': [...]} or {'scenario':..., 'named': [[tid, point, occ], ...]}
     or {'scenario':..., 'stress': True}.  True iff the outcome vector is that of some sequential order."""
     env = {'MY_VAR': '42'}
+    if 'scenario' not in obj:
+        print('replay object names a broken tie, not an input: %s' % json.dumps(obj)[:1500])
+        return False
     if obj.get('stress'):
         res = ctx.impl('c20', {'op': 'stress', 'scenario': obj['scenario'], 'iters': 300}, timeout=1500, extra_env=env)
         runs = res['runs']
@@ -585,7 +607,7 @@ def replay(ctx, obj, quiet=False):
         if not good:
             ok = False
             if not quiet:
-                print('schedule      :', [d[2] for d in rn.get('decisions', [])] or '(real threads)')
+                print('schedule      :', rn.get('schedule') or '(real threads)')
                 print('trace         :', rn.get('trace'))
                 print('outcomes      :', json.dumps(rn.get('outcomes'))[:1500])
                 print('sequential    :', [json.dumps(s.get('outcomes'))[:700] for s in res['sequential'][:3]])
